@@ -275,24 +275,16 @@ let () =
       let visited = List.map (fun ((_, nm), _) -> sz nm) log in
       let dots = List.length (List.filter (fun e -> e = "." || e = "..") visited) in
       let calls = List.map (function
-          | FsLinkModel.DOpendir (q, true) -> ("opendir:" ^ escape_pct (sz q), None)
-          | FsLinkModel.DOpendir (q, false) -> ("opendir-fail:" ^ escape_pct (sz q), None)
-          | FsLinkModel.DReaddir (Some e) -> ("readdir:" ^ escape_pct (sz e), Some e)
-          | FsLinkModel.DReaddir None -> ("readdir-null", None)
-          | FsLinkModel.DClosedir -> ("closedir", None)) (FsLinkModel.d_calls st) in
-      (* interleave: the callback for an entry follows its readdir; the model keeps calls and callbacks in two
-         lists, in order, so the k-th callback goes after the readdir of the k-th visited entry *)
-      let rec weave calls log = match calls with
-        | [] -> []
-        | (c, Some e) :: rest ->
-          (match log with
-           | ((q, nm), dt) :: lrest when nm = e && not (sz e = "." || sz e = "..") ->
-             c :: Printf.sprintf "cb:%s:%s:%d" (escape_pct (sz q)) (escape_pct (sz nm)) (int_of_z dt) :: weave rest lrest
-           | _ -> c :: weave rest log)
-        | (c, None) :: rest -> c :: weave rest log in
+          | FsLinkModel.DOpendir (q, true) -> "opendir:" ^ escape_pct (sz q)
+          | FsLinkModel.DOpendir (q, false) -> "opendir-fail:" ^ escape_pct (sz q)
+          | FsLinkModel.DReaddir (Some e) -> "readdir:" ^ escape_pct (sz e)
+          | FsLinkModel.DReaddir None -> "readdir-null"
+          | FsLinkModel.DCallback (q, nm, dt) ->
+            Printf.sprintf "cb:%s:%s:%d" (escape_pct (sz q)) (escape_pct (sz nm)) (int_of_z dt)
+          | FsLinkModel.DClosedir -> "closedir") (FsLinkModel.d_calls st) in
       let names_tok l = if l = [] then "-" else String.concat "," (List.map escape_pct l) in
       Printf.printf "M visited= %d dots= %d fds= %d names= %s || %s\n" (List.length visited) dots
-        (int_of_nat (FsLinkModel.d_open st)) (names_tok visited) (String.concat " " (weave calls log));
+        (int_of_nat (FsLinkModel.d_open st)) (names_tok visited) (String.concat " " calls);
       let want = if how = "fail" then [] else List.filter (fun e -> e <> "." && e <> "..") ents in
       Printf.printf "S visited= %d dots= 0 fds= 0 names= %s\n" (List.length want) (names_tok want)
     | _ -> Printf.printf "M ?\nS ?\n")
